@@ -114,6 +114,7 @@ pub fn std_sweep(tier: Tier, flavor: Flavor) -> Vec<Part> {
         let pair = ListMask::of(&[gen::idx(10, 10), si]);
         parts.push(Part { name: "ES-K capacity boundaries of a single symbol", family: gen::es_k(c), cfgs: gen::cfgs(&[ALL_MODES], &[single, pair], &on, &off) });
     }
+    parts.push(Part { name: "ES-P run + island + run + foreign tail", family: gen::es_p(), cfgs: gen::cfgs(&[ALL_MODES, 0x11, 0x09, 0x03, 0x05], &[d, a], &on, &off) });
     parts.push(Part { name: "ES-N islands between dense runs", family: gen::es_n(tier.pick(8, 12)), cfgs: gen::cfgs(&mq, &[d, a], &on, &off) });
     // ES-M: multi-run inputs near the capacity of small single-symbol lists under restricted mode sets
     {
